@@ -2,5 +2,5 @@ From Coq Require Import Extraction ExtrOcamlBasic.
 From V Require Import lib.Words model.Stream spec.Contract.
 Extraction Language OCaml.
 Extraction "../build/ocaml/stream/model.ml"
-  init_st set_parameter ensure_initialized compress_stream take_output has_more_output is_finished
+  init_st set_parameter ensure_initialized compress_stream compress_stream_from c_reported_total c_reported_total_asfound take_output has_more_output is_finished
   answer_ok upd_misc mon0 mon_run.
